@@ -2786,7 +2786,14 @@ fn generate_constraints_expr(
                 cond,
             );
 
-            generate_constraints_stmt(ctx, polyvar_scope, mode.clone(), then_stmt);
+            // without an `else` the value of the whole expression is void, whatever the branch is:
+            // the type expected of the `if` says nothing about the branch
+            let then_mode = if else_stmt.is_some() {
+                mode.clone()
+            } else {
+                Mode::Syn
+            };
+            generate_constraints_stmt(ctx, polyvar_scope, then_mode, then_stmt);
             let expr1_ty = TypeVar::from_node(ctx, then_stmt.node());
             if let Some(expr2) = else_stmt {
                 generate_constraints_stmt(ctx, polyvar_scope, mode.clone(), expr2);
